@@ -39,6 +39,15 @@ class Pool:
     def with_law(self):
         return Pool(self.nV, self.unis, self.two, self.nary, self.nW + 1)
 
+    @staticmethod
+    def from_real(inner):
+        """exact summary read off the adapter's registries (used where ops create several objects)"""
+        from edgegraph.structure import Universe, TwoEndedLink
+        unis = tuple(i for i, v in enumerate(inner.V) if isinstance(v, Universe))
+        two = tuple(i for i, l in enumerate(inner.L) if isinstance(l, TwoEndedLink))
+        nary = tuple(i for i, l in enumerate(inner.L) if not isinstance(l, TwoEndedLink))
+        return Pool(len(inner.V), unis, two, nary, len(inner.W))
+
     def after(self, op, answer):
         """pool after `op` was answered `answer` by the real code"""
         if not answer.startswith("ok "):
